@@ -138,20 +138,8 @@ theorem left_outer_pads (on : Pred) (nR : Nat) (L R : List Row) (l : Row) (hl : 
 
 /-- … and as a bag it is the inner join plus the padded unmatched left rows. -/
 theorem left_outer_decomp (on : Pred) (nR : Nat) (L R : List Row) :
-    (leftJoin on nR L R).Perm (innerJoin on L R ++ leftUnmatched on nR L R) := by
-  unfold leftJoin innerJoin leftUnmatched
-  induction L with
-  | nil => simp
-  | cons l ls ih =>
-    simp only [List.flatMap_cons, List.filter_cons]
-    cases h : (matchesOf on l R).isEmpty
-    · simp only [Bool.false_eq_true, if_false]
-      rw [List.append_assoc]
-      exact Perm.append_left _ ih
-    · have hm : matchesOf on l R = [] := List.isEmpty_iff.mp h
-      simp only [if_true, hm, List.map_nil, List.nil_append, List.map_cons]
-      refine (Perm.cons _ ih).trans ?_
-      exact perm_middle.symm
+    (leftJoin on nR L R).Perm (innerJoin on L R ++ leftUnmatched on nR L R) :=
+  leftJoin_perm_decomp on nR L R
 
 /-- RIGHT / FULL: unmatched right rows are padded on the left. -/
 theorem right_outer_pads (on : Pred) (nL : Nat) (L R : List Row) (r : Row) (hr : r ∈ R)
